@@ -107,6 +107,81 @@ fn check_shuffle(s: u64, len: usize, buf: &mut Vec<usize>) -> Option<(String, St
 
 /// shuffle on a vector with repeated entries (labels, bootstrap indices, a constant vector): the
 /// result must hold the same multiset of elements and the call must not panic.
+pub enum ChildResult {
+    Ok,
+    NotPermutation,
+    Panic(String),
+    Crashed(String),
+    Unknown(String),
+}
+
+/// Body of the child process (`nv --child shuffle <seed> <len>`): shuffle 0..len on a thread with
+/// the default stack size and print the verdict.
+pub fn child_main(args: &[String]) -> i32 {
+    let s: u64 = args.get(1).and_then(|a| a.parse().ok()).unwrap_or(1);
+    let len: usize = args.get(2).and_then(|a| a.parse().ok()).unwrap_or(0);
+    let h = std::thread::spawn(move || {
+        guard(|| {
+            let mut v: Vec<usize> = (0..len).collect();
+            let mut g = Generator::create(s);
+            g.shuffle(&mut v);
+            // every index exactly once
+            let mut seen = vec![false; len];
+            let mut ok = v.len() == len;
+            for x in v.iter() {
+                if *x >= len || seen[*x] {
+                    ok = false;
+                    break;
+                }
+                seen[*x] = true;
+            }
+            ok
+        })
+    });
+    match h.join() {
+        Ok(Ok(true)) => println!("NV-CHILD OK"),
+        Ok(Ok(false)) => println!("NV-CHILD NOTPERM"),
+        Ok(Err(m)) => println!("NV-CHILD PANIC {}", m.replace('\n', " ")),
+        Err(_) => println!("NV-CHILD PANIC thread died"),
+    }
+    0
+}
+
+fn child_shuffle(s: u64, len: usize) -> ChildResult {
+    use std::os::unix::process::ExitStatusExt;
+    let exe = match std::env::current_exe() {
+        Ok(e) => e,
+        Err(e) => return ChildResult::Unknown(format!("current_exe: {}", e)),
+    };
+    let o = match std::process::Command::new(exe).args(["--child", "shuffle", &s.to_string(), &len.to_string()]).output() {
+        Ok(o) => o,
+        Err(e) => return ChildResult::Unknown(format!("spawn: {}", e)),
+    };
+    let stdout = String::from_utf8_lossy(&o.stdout).to_string();
+    let stderr = String::from_utf8_lossy(&o.stderr).to_string();
+    if let Some(line) = stdout.lines().find(|l| l.starts_with("NV-CHILD ")) {
+        let rest = &line["NV-CHILD ".len()..];
+        if rest == "OK" {
+            return ChildResult::Ok;
+        }
+        if rest == "NOTPERM" {
+            return ChildResult::NotPermutation;
+        }
+        if let Some(m) = rest.strip_prefix("PANIC ") {
+            return ChildResult::Panic(m.to_string());
+        }
+    }
+    // no verdict line: the child died.  Stack exhaustion (SIGSEGV / SIGABRT with the runtime's
+    // message) and aborts are the library's doing - the unchanged shuffle needs constant stack and
+    // allocates nothing; a kill from outside (SIGKILL: memory pressure) decides nothing.
+    let last = stderr.lines().rev().find(|l| !l.trim().is_empty()).unwrap_or("").to_string();
+    match o.status.signal() {
+        Some(sig) if sig == 6 || sig == 11 || sig == 7 || sig == 4 => ChildResult::Crashed(format!("signal {} ({})", sig, last)),
+        Some(sig) => ChildResult::Unknown(format!("signal {} ({})", sig, last)),
+        None => ChildResult::Unknown(format!("exit {:?} without a verdict ({})", o.status.code(), last)),
+    }
+}
+
 fn check_shuffle_repeats(s: u64, len: usize) -> Option<(String, String)> {
     for kind in 0..6usize {
         // kinds 3..5: entries of any magnitude (hashes, identifiers, usize::MAX as a marker):
@@ -219,12 +294,12 @@ impl Monitor for C18 {
     }
     fn gens(&self, tier: Tier) -> Vec<(&'static str, u64)> {
         match tier {
-            Tier::Quick => vec![("states_quick", 2 + 64 * 16), ("seeds", 3600), ("clock", 200), ("tensor_random", 20_000), ("huge_shuffle", 4)],
-            Tier::Thorough => vec![("states_all", (M - 1 + CHUNK - 1) / CHUNK), ("seeds", 60_000), ("clock", 1000), ("tensor_random", 200_000), ("huge_shuffle", 24)],
+            Tier::Quick => vec![("states_quick", 2 + 64 * 16), ("seeds", 3600), ("clock", 200), ("tensor_random", 20_000), ("huge_shuffle", 8)],
+            Tier::Thorough => vec![("states_all", (M - 1 + CHUNK - 1) / CHUNK), ("seeds", 60_000), ("clock", 1000), ("tensor_random", 200_000), ("huge_shuffle", 48)],
         }
     }
     fn rule(&self) -> &'static str {
-        "states_*: one case per chunk of seeds s; create(s) + one draw visits generator state 48271*s mod m (a bijection on [1,m-1]); per state: generate() over an 18-pair (min,max) panel (incl. two intervals whose width overflows f32 and six with a zero or negative upper bound or far from zero) must be finite and in [min,max], shuffle(len 1) and shuffle(len 2..6) must return a permutation without panicking, states whose unit draw is >= 0.999999 are swept over every len 1..200; distinct = number of distinct states visited. seeds: seed classes (0, 1, small, around m, multiples of m, 2^32, >3.8e14, u64::MAX, timestamps) x lengths 0..200: no panic, permutation (index vectors; vectors with repeated entries and vectors with entries of any magnitude - 64-bit hashes, usize::MAX - k, powers of two up to 2^63: same multiset), one generator object shuffling twelve vectors of changing length in turn, purity (same seed twice; same seed while a second generator draws and shuffles in between). clock: Tensor::random's possible clock seeds (subsec_micros in [0,1e6)) replayed through Generator for 256 draws. tensor_random: Tensor::random itself for every rank (extents 1..6; in every eighth request one extent, at any position, is 0: the empty nesting must come back as requested); every third request follows a request for a shape the library refuses (rank 5 / nested), which must not disturb it. huge_shuffle: index vectors of 2^24 + {1, 3, 4, 8, 12, 20, 36, 100} entries (positions a single-precision index cannot name exactly): no panic, every index exactly once."
+        "states_*: one case per chunk of seeds s; create(s) + one draw visits generator state 48271*s mod m (a bijection on [1,m-1]); per state: generate() over an 18-pair (min,max) panel (incl. two intervals whose width overflows f32 and six with a zero or negative upper bound or far from zero) must be finite and in [min,max], shuffle(len 1) and shuffle(len 2..6) must return a permutation without panicking, states whose unit draw is >= 0.999999 are swept over every len 1..200; distinct = number of distinct states visited. seeds: seed classes (0, 1, small, around m, multiples of m, 2^32, >3.8e14, u64::MAX, timestamps) x lengths 0..200: no panic, permutation (index vectors; vectors with repeated entries and vectors with entries of any magnitude - 64-bit hashes, usize::MAX - k, powers of two up to 2^63: same multiset), one generator object shuffling twelve vectors of changing length in turn, purity (same seed twice; same seed while a second generator draws and shuffles in between). clock: Tensor::random's possible clock seeds (subsec_micros in [0,1e6)) replayed through Generator for 256 draws. tensor_random: Tensor::random itself for every rank (extents 1..6; in every eighth request one extent, at any position, is 0: the empty nesting must come back as requested); every third request follows a request for a shape the library refuses (rank 5 / nested), which must not disturb it. huge_shuffle: index vectors of 2^24 + {1, 3, 4, 8, 12, 20, 36, 100} entries (positions a single-precision index cannot name exactly) and of 40 000 ... 5 000 000 entries, each shuffled in a child process on a thread with the default 2 MiB stack: no panic, no crash of the process (stack exhaustion, abort), every index exactly once."
     }
     fn assumptions(&self) -> Vec<&'static str> {
         vec![
@@ -398,31 +473,23 @@ impl Monitor for C18 {
                 // lengths beyond 2^24, where an index kept in single precision cannot name every
                 // position (the last index may round up to the length)
                 let m = 1usize << 24;
-                let lens = [m + 4, m + 8, m + 1, m + 12, m + 3, m + 100, m + 20, m + 36];
+                let lens = [m + 4, 40_000, m + 8, 300_000, m + 1, 2_000_000, m + 12, 100_000, m + 3, 1_000_003, m + 100, 65_536, m + 20, 5_000_000, m + 36, 150_001];
                 let len = lens[(idx as usize) % lens.len()];
                 let s = 1 + idx * 7919 + seed;
                 let mut out = Out::new(format!("shuffle of {} entries, seed {}", len, s));
-                let r = guard(|| {
-                    let mut v: Vec<usize> = (0..len).collect();
-                    let mut g = Generator::create(s);
-                    g.shuffle(&mut v);
-                    // every index exactly once
-                    let mut seen = vec![false; len];
-                    let mut ok = v.len() == len;
-                    for x in v.iter() {
-                        if *x >= len || seen[*x] {
-                            ok = false;
-                            break;
-                        }
-                        seen[*x] = true;
+                // run in a child process on a thread with the default 2 MiB stack: a crash that is not
+                // a panic (stack exhaustion, abort) ends the child, not the monitor, and is a verdict
+                out.count("shuffles_of_more_than_2^24_entries", if len > m { 1 } else { 0 });
+                out.count("long_shuffles_in_a_child_process", 1);
+                match child_shuffle(s, len) {
+                    ChildResult::Ok => {}
+                    ChildResult::NotPermutation => out.viol("shuffle:huge:not-a-permutation", format!("seed {}: shuffling 0..{} did not return a permutation", s, len), J::Null),
+                    ChildResult::Panic(msg) => out.viol(&format!("shuffle:huge:panic:{}", classify_panic(&msg)), format!("seed {}: shuffle of {} entries panicked: {}", s, len, short(&msg, 160)), J::Null),
+                    ChildResult::Crashed(how) => out.viol("shuffle:huge:crash", format!("seed {}: the process shuffling {} entries (thread with the default 2 MiB stack) died: {}", s, len, short(&how, 200)), J::Null),
+                    ChildResult::Unknown(how) => {
+                        out.count("long_shuffles_undecided", 1);
+                        eprintln!("C18 huge_shuffle: child undecided: {}", how);
                     }
-                    ok
-                });
-                out.count("shuffles_of_more_than_2^24_entries", 1);
-                match r {
-                    Ok(true) => {}
-                    Ok(false) => out.viol("shuffle:huge:not-a-permutation", format!("seed {}: shuffling 0..{} did not return a permutation", s, len), J::Null),
-                    Err(m) => out.viol(&format!("shuffle:huge:panic:{}", classify_panic(&m)), format!("seed {}: shuffle of {} entries panicked: {}", s, len, short(&m, 160)), J::Null),
                 }
                 out
             }
@@ -499,6 +566,8 @@ impl Monitor for C18 {
             agg.extra.push(("exhaustive".into(), J::Bool(false)));
             agg.require(visited >= 60_000_000, format!("visited only {} states", visited));
         }
+        let undecided = agg.count("long_shuffles_undecided");
+        agg.require(undecided == 0, format!("{} long shuffles ended without a verdict (child process killed from outside or not started)", undecided));
         let classes = agg.set_size("seed_classes");
         agg.require(classes >= 12, format!("only {} seed classes exercised", classes));
     }
